@@ -567,6 +567,13 @@ func frameFacts(f *facts) {
 	if fd := fn("input/tcplistener/multilinereader.go", "processBuffer", "multiLineReader"); fd != nil && fd.Body != nil {
 		f.strs["frame_process_buffer"] = skeleton(fd.Body.List)
 	}
+	for _, fnm := range [][2]string{{"Flush", "frame_flush"}, {"FlushAll", "frame_flush_all"}, {"checkOverflow", "frame_check_overflow"}} {
+		f.note[fnm[1]] = "multilinereader.go " + fnm[0] + ": the whole body (transcribed by Model/FrameIdx.lean)"
+		f.strs[fnm[1]] = nil
+		if fd := fn("input/tcplistener/multilinereader.go", fnm[0], "multiLineReader"); fd != nil && fd.Body != nil {
+			f.strs[fnm[1]] = skeleton(fd.Body.List)
+		}
+	}
 	f.note["frame_read"] = "multilinereader.go Read: the whole body"
 	f.strs["frame_read"] = nil
 	if fd := fn("input/tcplistener/multilinereader.go", "Read", "multiLineReader"); fd != nil && fd.Body != nil {
